@@ -563,6 +563,9 @@ class Interp:
                 base, f = m.rsplit(".", 1)
                 obj = self.ev(ast.parse(base, mode="eval").body, fr)
                 heap_allowed.append((obj, f))
+                fv = obj.fields.get(f) if isinstance(obj, SObj) else None
+                if isinstance(fv, (SList, SDict, SSet)):
+                    heap_allowed.append((fv, None))
             else:
                 v = fr.locals.get(m)
                 if isinstance(v, (SList, SDict, SSet, SObj)):
@@ -653,7 +656,11 @@ class Interp:
         for m in spec.modifies:
             if "." in m:
                 base, f = m.rsplit(".", 1)
-                heap_allowed.append((self.ev(ast.parse(base, mode="eval").body, fr), f))
+                obj = self.ev(ast.parse(base, mode="eval").body, fr)
+                heap_allowed.append((obj, f))
+                fv = obj.fields.get(f) if isinstance(obj, SObj) else None
+                if isinstance(fv, (SList, SDict, SSet)):
+                    heap_allowed.append((fv, None))
             else:
                 v = fr.locals.get(m)
                 if isinstance(v, (SList, SDict, SSet, SObj)):
@@ -674,6 +681,7 @@ class Interp:
             lf = LoopFrame(declared | assigned, heap_allowed, next_oid(), fr.target)
             cx.loop_frames.append(lf)
             broke = False
+            ev_mark = len(cx.events)
             try:
                 try:
                     for x in s.body:
@@ -688,6 +696,9 @@ class Interp:
                 return
             for name, f in spec.inv(cx, env, SInt(i.term + 1)):
                 cx.oblige(f"{pre}:inv_pres:{name}", f, kind="inv_pres")
+            if spec.body_post is not None:
+                for name, f in spec.body_post(cx, env, i, cx.events[ev_mark:]):
+                    cx.oblige(f"{pre}:iteration:{name}", f, kind="inv_pres")
             if v0 is not None:
                 v1 = spec.variant(cx, env)
                 cx.oblige(f"{pre}:variant_decreases", z3.And(v1 < v0, v0 >= 0), kind="inv_pres")
